@@ -1134,6 +1134,11 @@ class Executor:
         ln = hi - lo if (isinstance(hi, int) and isinstance(lo, int)) else z3.simplify(hiz - loz)
         return Seq(base.kind, None, ln, arr)
 
+    def e_Dict(self, e, env):
+        if e.keys:
+            raise OutOfSubset("non-empty dict literal", e)
+        return {}
+
     def e_Lambda(self, e, env):
         return Func("lambda", e, env)
 
@@ -1221,7 +1226,7 @@ class Executor:
         return self.call_repo(obj.cls, name, obj, args, kwargs, node)
 
     def call_repo(self, cls, name, receiver, args, kwargs, node):
-        c = self.book.lookup(cls, name)
+        c = self.book.lookup(cls, name, receiver=receiver, args=args)
         if c is not None:
             return self.apply_contract(c, receiver, args, kwargs, node)
         fn = self.book.inline_source(self.contract, cls, name)
